@@ -84,18 +84,52 @@ func (ex *Exec) contractCall(blk *Block, recv Value, lead []Value, args []Value,
 	}
 	ex.oldState = pre
 	resG := res
-	if len(blk.Ghosts) > 0 {
-		resG = append([]Value(nil), res...)
-		for _, c := range blk.Clauses {
-			if c.Kind == "ensures" {
-				esig := clauseFn(c).Obj.Type().(*types.Signature)
-				for gi, g := range blk.Ghosts {
-					pt := esig.Params().At(esig.Params().Len() - len(blk.Ghosts) + gi).Type()
-					resG = append(resG, ex.havocValue(blk.Key()+".ghost."+g[0], pt, st))
+	// ghost variables of the callee: instantiated with the caller's ghost of the same type
+	// (pointwise reasoning), otherwise with an arbitrary value
+	var restore []func()
+	for _, g := range blk.Ghosts {
+		gl := ex.ghostLoc(blk.Pkg, g[0])
+		if gl == nil {
+			continue
+		}
+		var inst Value
+		if ex.curBlock != nil && ex.curBlock != blk {
+			for _, cg := range ex.curBlock.Ghosts {
+				if cg[1] == g[1] && ex.curBlock.Pkg == blk.Pkg {
+					if cl := ex.ghostLoc(ex.curBlock.Pkg, cg[0]); cl != nil {
+						inst = ex.load(st, cl)
+					}
 				}
-				break
 			}
 		}
+		if inst == nil {
+			inst = ex.havocValue(blk.Key()+".ghost."+g[0], gl.Typ, st)
+		}
+		prev, had := st.store[gl]
+		st.store[gl] = inst
+		restore = append(restore, func() {
+			if had {
+				st.store[gl] = prev
+			} else {
+				delete(st.store, gl)
+			}
+		})
+	}
+	// witnesses: some value exists for which the ensures clauses hold
+	for _, w := range blk.Witnesses {
+		gl := ex.ghostLoc(blk.Pkg, w[0])
+		if gl == nil {
+			continue
+		}
+		prev, had := st.store[gl]
+		st.store[gl] = ex.havocValue(blk.Key()+".witness."+w[0], gl.Typ, st)
+		restore = append(restore, func() {
+			if had {
+				st.store[gl] = prev
+			} else {
+				delete(st.store, gl)
+			}
+		})
 	}
 	for _, c := range blk.Clauses {
 		if c.Kind == "ensures" {
@@ -103,6 +137,9 @@ func (ex *Exec) contractCall(blk *Block, recv Value, lead []Value, args []Value,
 		}
 	}
 	ex.oldState = saveOld
+	for _, f := range restore {
+		f()
+	}
 	switch len(res) {
 	case 0:
 		return nil
@@ -110,6 +147,19 @@ func (ex *Exec) contractCall(blk *Block, recv Value, lead []Value, args []Value,
 		return res[0]
 	}
 	return &TupleV{Vals: res}
+}
+
+// ghostLoc: the location of a ghost variable (a package-level variable of the overlay).
+func (ex *Exec) ghostLoc(pkgPath, name string) *Loc {
+	pk := ex.prog.Pkgs[pkgPath]
+	if pk == nil {
+		return nil
+	}
+	v, ok := pk.Types.Scope().Lookup(name).(*types.Var)
+	if !ok {
+		return nil
+	}
+	return ex.globalLoc(v, nil)
 }
 
 func (ex *Exec) modifiesHavoc(blk *Block, recv Value, lead []Value, args []Value, st *State) {
